@@ -26,6 +26,7 @@ type params struct {
 	Entry    string `json:"entry"`          // exchange | conn | conn-pfs-perm | conn-pfs-temp | conn-regen-404
 	SilentAt int    `json:"silent_at"`      // the peer stops before its k-th message of the targeted exchange (1..3); 0 = honest
 	Deadline string `json:"deadline"`       // caller context: "none" | "1h"
+	Pre404   bool   `json:"pre404,omitempty"` // before going silent the peer answers the pending read with the transport error -404 (which the client skips and reads again)
 	Skew     string `json:"skew,omitempty"` // "+1h": the injected clock (Options.Clock, e.g. NTP-corrected) runs one hour ahead of the system time that timers live on
 }
 
@@ -63,7 +64,18 @@ func body(p params, o *sx.Obs) {
 		target = 1 // the permanent exchange completes first
 	}
 	if p.SilentAt > 0 {
-		srv.Filter = func(i int, frame []byte) bool { return i < target*3+p.SilentAt-1 }
+		srv.Filter = func(i int, frame []byte) bool {
+			if i < target*3+p.SilentAt-1 {
+				return true
+			}
+			if p.Pre404 && i == target*3+p.SilentAt-1 {
+				// instead of its answer the peer sends the 4-byte transport error -404, then nothing more
+				var f [4]byte
+				binary.LittleEndian.PutUint32(f[:], uint32(0xffffffff-404+1))
+				cli.Inject(f[:])
+			}
+			return false
+		}
 	}
 	root, stop := vctx.WithCancel(vctx.Background())
 	defer stop()
@@ -215,14 +227,20 @@ func main() {
 		for _, e := range []string{"exchange", "conn", "conn-pfs-perm", "conn-pfs-temp", "conn-regen-404"} {
 			for _, d := range []string{"none", "1h"} {
 				for k := 0; k <= 3; k++ {
-					scs = append(scs, params{e, k, d, ""})
+					scs = append(scs, params{e, k, d, false, ""})
 				}
 			}
 		}
 		// configurations with a skewed injected clock: the bound must not depend on the clock's offset
 		for _, e := range []string{"exchange", "conn-pfs-temp", "conn-regen-404"} {
 			for k := 0; k <= 3; k++ {
-				scs = append(scs, params{e, k, "none", "+1h"})
+				scs = append(scs, params{e, k, "none", false, "+1h"})
+			}
+		}
+		// the peer answers the pending read with -404 (skipped by the client while exchanging) and then goes silent
+		for _, e := range []string{"exchange", "conn-pfs-temp", "conn-regen-404"} {
+			for k := 1; k <= 3; k++ {
+				scs = append(scs, params{e, k, "none", true, ""})
 			}
 		}
 		mk := func(p params) sx.Scenario[params] {
@@ -239,7 +257,7 @@ func main() {
 		}
 		c.Rule("fault enumeration: the peer (in-tree ServerExchange over an in-memory wire) goes silent before its k-th message, k in 0(honest)..3, for 5 entry points "+
 			"{ClientExchange.Run, Conn.Run non-PFS, PFS permanent exchange, PFS temporary exchange, key regeneration after transport error -404} x caller deadline "+
-			"{none, 1h}, plus 12 configurations whose injected clock runs 1h ahead of the timer clock; ExchangeTimeout 60s, every other timer >= 1h, virtual clock; schedules: quick = the default schedule; thorough = for the direct ClientExchange.Run entry additionally every schedule with <= %d preemption/early-timer "+
+			"{none, 1h}, plus 12 configurations whose injected clock runs 1h ahead of the timer clock and 9 in which the peer answers the pending read with the transport error -404 before going silent; ExchangeTimeout 60s, every other timer >= 1h, virtual clock; schedules: quick = the default schedule; thorough = for the direct ClientExchange.Run entry additionally every schedule with <= %d preemption/early-timer "+
 			"deviation(s) and <= 1 non-default free choice. Oracle: the client returns an error no later than 60s of virtual time after its last "+
 			"transmission; 'no enabled thread and no armed timer' or a later return is the violation. Honest runs (k=0) must succeed.", bound)
 		c.Assume("virtual time; real 2048-bit crypto on both sides (about 0.1-0.3 s per exchange), hence the small deviation bound")
